@@ -340,6 +340,25 @@ pub fn condition_register_bit_to_flag(condition_register_bit: usize) -> Result<S
     })
 }
 
+/// Record forms (`add.`, `subf.`, ...; capstone sets `update_cr0`): CR0's LT, GT and EQ are set
+/// from the signed comparison of the result with zero. CR0[SO] is a copy of XER[SO], which is
+/// not modelled, and is left alone.
+pub fn record_cr0(block: &mut Block, update_cr0: bool, result: Expression) -> Result<(), Error> {
+    if update_cr0 {
+        let zero = expr_const(0, result.bits());
+        block.assign(
+            scalar("cr0-lt", 1),
+            Expression::cmplts(result.clone(), zero.clone())?,
+        );
+        block.assign(
+            scalar("cr0-gt", 1),
+            Expression::cmplts(zero.clone(), result.clone())?,
+        );
+        block.assign(scalar("cr0-eq", 1), Expression::cmpeq(result, zero)?);
+    }
+    Ok(())
+}
+
 pub fn rlwinm_(
     control_flow_graph: &mut ControlFlowGraph,
     ra: Scalar,
@@ -347,6 +366,7 @@ pub fn rlwinm_(
     sh: u64,
     mb: u64,
     me: u64,
+    update_cr0: bool,
 ) -> Result<(), Error> {
     /*
     - If the MB value is less than the ME value + 1, then the mask bits between
@@ -381,7 +401,8 @@ pub fn rlwinm_(
 
         let value = Expr::rotl(rs, expr_const(sh, 32))?;
         let value = Expr::and(value, expr_const(mask, 32))?;
-        block.assign(ra, value);
+        block.assign(ra.clone(), value);
+        record_cr0(block, update_cr0, ra.into())?;
 
         block.index()
     };
@@ -407,7 +428,8 @@ pub fn add(
         let block = control_flow_graph.new_block()?;
 
         let src = Expression::add(lhs, rhs)?;
-        block.assign(dst, src);
+        block.assign(dst.clone(), src);
+        record_cr0(block, detail.update_cr0, dst.into())?;
 
         block.index()
     };
@@ -494,7 +516,8 @@ pub fn addze(
             scalar("carry", 1),
             Expression::cmpltu(sum.clone().into(), lhs)?,
         );
-        block.assign(dst, sum.into());
+        block.assign(dst.clone(), sum.into());
+        record_cr0(block, detail.update_cr0, dst.into())?;
 
         block.index()
     };
@@ -1086,7 +1109,7 @@ pub fn rlwinm(
     let mb = detail.operands[3].imm() as u64;
     let me = detail.operands[4].imm() as u64;
 
-    rlwinm_(control_flow_graph, ra, rs, sh, mb, me)
+    rlwinm_(control_flow_graph, ra, rs, sh, mb, me, detail.update_cr0)
 }
 
 pub fn slwi(
@@ -1099,7 +1122,7 @@ pub fn slwi(
     let rs = get_register(detail.operands[1].reg())?.expression();
     let sh = detail.operands[2].imm() as u64;
 
-    rlwinm_(control_flow_graph, ra, rs, sh, 0, 31 - sh)
+    rlwinm_(control_flow_graph, ra, rs, sh, 0, 31 - sh, detail.update_cr0)
 }
 
 pub fn srawi(
@@ -1126,7 +1149,8 @@ pub fn srawi(
                 Expression::cmpneq(shifted_out, expr_const(0, 32))?,
             )?,
         );
-        block.assign(dst, Expression::sra(lhs, rhs)?);
+        block.assign(dst.clone(), Expression::sra(lhs, rhs)?);
+        record_cr0(block, detail.update_cr0, dst.into())?;
 
         block.index()
     };
@@ -1260,7 +1284,8 @@ pub fn subf(
             Expression::add(Expression::xor(lhs, expr_const(0xffff_ffff, 32))?, rhs)?,
             expr_const(1, 32),
         )?;
-        block.assign(dst, src);
+        block.assign(dst.clone(), src);
+        record_cr0(block, detail.update_cr0, dst.into())?;
 
         block.index()
     };
